@@ -202,11 +202,66 @@ def checkC07 (p : PProject) (impl : Json) : PropOut := Id.run do
   return { model := Json.mkObj wants, implView := Json.mkObj (views.map fun (k, v) => (k, if fails.isEmpty then v else (wants.lookup k).getD v)),
            implFails := fails, modelFails := mfails, nontrivial := !comps.isEmpty, notes := notes }
 
+/-! ### C16 at project level: one annotation line in the doc comment of one construct (`site`)
+
+"malformed JSON5 is reported as an error, never silently dropped" wherever gleece reads a comment: the doc comment of a
+controller, of a route method, of a declaration that becomes a component (reached from a route), of a JSON-visible
+field of such a struct, of a constant of such an enum.  A well-formed line at the same site is the control: it
+must not make the run fail. -/
+def checkC16Site (p : PProject) (input impl : Json) : PropOut := Id.run do
+  let site := (input.getObjVal? "site").toOption.getD Json.null
+  let kind := jstrD site "kind"
+  let malformed := jboolD site "malformed"
+  if kind.isEmpty then
+    return { model := Json.str "no-site", implView := Json.str "no-site", nontrivial := false, notes := ["d:no-site"] }
+  if (jstrD impl "setupErr").startsWith "pipeline: encountered" then
+    return { model := Json.str "uncompilable-source", implView := Json.str "uncompilable-source", nontrivial := false, notes := ["d:uncompilable-source"] }
+  let ds := parseDecls p.types
+  let declared := ds.map (·.name)
+  let clos := closure ds (ds.length + 1) (rootsOf (usagesOf p declared))
+  let tn : TName := (jstrD site "pkg", jstrD site "type")
+  let reached := clos.contains tn
+  -- is the member a JSON-visible field (the reducer drops the others, comment and all)
+  let fieldVisible := p.types.any fun t => jstrD t "name" = tn.2 && jstrD t "pkg" = tn.1 &&
+    (jarrD t "fields").any fun f => jstrD f "name" = jstrD site "member" &&
+      (match (jstrD f "name").toList.head? with | some c => c.isUpper | none => true) &&
+      ((jstrD f "tag").splitOn "json:\"-\"").length = 1
+  let read : Option Bool :=
+    match kind with
+    | "controller" => some true
+    | "method" => some true
+    | "type" => if reached then some true else none
+    | "const" => if reached then some true else none
+    | "field" => if reached && fieldVisible then some true else none
+    | _ => none
+  let errs := ["setupErr", "configErr", "graphErr", "validateErr", "runErr"].filter fun k => jstrD impl k ≠ ""
+  let failed := !errs.isEmpty
+  let mut fails : List String := []
+  match read with
+  | some true =>
+    if malformed && !failed then fails := fails ++ [s!"malformed-json5-silently-dropped:{kind}:{tn.2}.{jstrD site "member"}"]
+    if !malformed && failed then fails := fails ++ [s!"well-formed-annotation-fails-the-run:{kind}:{tn.2}.{jstrD site "member"}:{errs}"]
+  | _ => pure ()
+  let want : Json := match read with
+    | some true => Json.str (if malformed then "error" else "ok")
+    | _ => Json.str "not-read"
+  let got : Json := match read with
+    | some true => Json.str (if failed then "error" else "ok")
+    | _ => Json.str "not-read"
+  return { model := want, implView := got, implFails := fails, nontrivial := read.isSome,
+           notes := [s!"d:site-{kind}-{if malformed then "malformed" else "wellformed"}-{if read.isSome then "read" else "notread"}"] }
+
 end Gleece.Driver
 
 namespace Gleece.Driver
 
 def projHandler2 : Handler := fun prop input impl => do
+  if prop = "C16" then
+    let p := parseProject input
+    let out := checkC16Site p input (impl.getD Json.null)
+    let implFails := if impl.isNone then ["no-answer"] else out.implFails
+    return { model := out.model, implView := some out.implView, specModel := true, specImpl := implFails.isEmpty,
+             nontrivial := out.nontrivial, notes := (implFails.take 8).map ("implfail:new:" ++ ·) ++ out.notes }
   if prop ≠ "C07" then projHandler prop input impl else
   let p := parseProject input
   let out := checkC07 p (impl.getD Json.null)
